@@ -37,4 +37,10 @@ def h_rest_agent_persistence_model_node_go : Nat := 0x42fc9e336bdfd1bb
 /-- hash of the normalised skeleton of * (internal/client/client.go) -/
 def h_rest_agent_client_client_go : Nat := 0x651e066169377167
 
+/-- hash of the normalised skeleton of * (internal/sock/client.go) -/
+def h_rest_agent_sock_client_go : Nat := 0xbde387884a65c0fd
+
+/-- hash of the normalised skeleton of * (internal/sock/server.go) -/
+def h_rest_agent_sock_server_go : Nat := 0xaa216abd9a897380
+
 end BdModel.Canon.Agent
